@@ -118,6 +118,12 @@ def check_C15(chk):
     c15f(chk)
     # shared clauses: the bytes handed to the npy reader are the file's bytes (C07.e) and a written file holds nothing but what was written (C07.g)
     chk.borrow(lambda: (c07e(chk), c07g(chk)), "C15.g", 3)
+    # .. `every npy file written` is written by write_array: stdout has two reviewed writers only (C10.d), and `view` writes the spectrum its
+    # steps produced through the format writer, never the input bytes (C13.a)
+    import rules_create as RC15_
+    import rules_view as RV15_
+    chk.borrow(lambda: RC15_.who_may_write(chk, "C10.d"), "C15.h", 2)
+    chk.borrow_check(RV15_.check_C13, {"C13.a"}, "C15.i", 10)
     for r, n in (("C15.a", 21), ("C15.b", 24), ("C15.c", 11), ("C15.d", 8), ("C15.e", 3), ("C15.f", 3)):
         chk.floor(r, n)
 
@@ -725,6 +731,11 @@ def check_C07(chk):
     # shared clause: every precision the text writer is asked for is the one given on the command line, up to the formatter's own limit
     import rules_panic as RP_
     chk.borrow(lambda: RP_.precision_bound(chk, "C17.f"), "C07.h", 2)
+    # .. the npy writer emits the header and then every element once, in storage order (C15.d), the decoder table is exact for every dtype
+    # (C15.a), and `view` hands the values it read to the writer untouched unless one of its four steps is asked for (C13.a/b)
+    chk.borrow(lambda: (c15a(chk), c15d(chk)), "C07.i", 20)
+    import rules_view as RV7_
+    chk.borrow_check(RV7_.check_C13, {"C13.a", "C13.b"}, "C07.j", 10)
     for r, n in (("C07.a", 3), ("C07.b", 5), ("C07.c", 5), ("C07.d", 4), ("C07.e", 5), ("C07.f", 6), ("C07.g", 2)):
         chk.floor(r, n)
 
@@ -1708,6 +1719,14 @@ def readers_do_not_judge(chk, rule):
                     own.append("%s::%s at %s" % (rv["adt"].split("::")[-1], rv.get("variant"), g.loc(b)))
         chk.ob(rule, "%s::read_genotypes/hands-on-what-was-decoded" % kind, not local and not own, f.loc(),
                "workspace functions applied to the record in the reader: %s; genotype-level values built in the reader: %s" % (local or "none", own or "none"))
+        # must pass through the decode: every ReadStatus::Read built by the reader is dominated by the call that decodes the record's sample
+        # columns (`genotypes()` on the record buffer).  A status built in front of it (`if alternate_bases().len() > 1 { return Read(vec![None; n]) }`,
+        # an "invariant site" shortcut) reports calls that were never looked at - and only for the container format this reader serves.
+        dec = [b for b, t in f.calls() if callee_name(t["callee"]).split("::")[-1] == "genotypes"]
+        built = [(b, g) for g in unit for b, i_, p, rv, s_ in g.assigns() if rv["k"] == "aggregate" and rv.get("adt") == "sfs_core::input::ReadStatus" and rv.get("variant") == "Read"]
+        undecoded = [g.loc(b) for b, g in built if g is f and not any(f.dominates(d, b) for d in dec)]
+        chk.ob(rule, "%s::read_genotypes/Read-only-after-the-sample-columns-were-decoded" % kind, bool(dec) and not undecoded, f.loc(),
+               "every ReadStatus::Read is dominated by the record's genotypes() decode (decode calls: %d, Read constructions: %d, not dominated: %s)" % (len(dec), len(built), undecoded or "none"))
 
 
 def reader_outcomes(chk, rule):
